@@ -4,7 +4,7 @@
 // concrete array) against element-wise reads of the lazy view.
 //   ev I:<composition> A:<shape>:<data> A:<shape>:<data>
 // prints  lazy <view> | row <shape ; raw buffer> | col <shape ; raw buffer> |
-//         two <array> | twoc <array> | sup <array>
+//         two <array> | twoc <array> | sup <array> | sup2 <array: wrong-shaped supplied output, must stay untouched>
 // Built in parts (-DPART=0..NPART-1 selects compositions id % NPART == PART).
 #include "nmtools/array/view/transpose.hpp"
 #include "nmtools/array/view/reshape.hpp"
@@ -25,6 +25,7 @@
 #include "nmtools/array/view/cumsum.hpp"
 #include "nmtools/array/view/matmul.hpp"
 #include "nmtools/array/view/activations/relu.hpp"
+#include "nmtools/array/view/slice.hpp"
 #include "nmtools/array/eval.hpp"
 #include "show.hpp"
 
@@ -95,6 +96,14 @@ static std::string run(Inner inner, Outer outer, const dyn_t<ll>& a, const dyn_t
         for (auto& x : out.data_) x = -99;
         na::eval(lz, nm::None, out);
         s += " | sup " + show(out);
+        // a supplied output with the SAME element count but another shape (flattened, or with an extra unit axis):
+        // the evaluator must return without writing (eval.hpp: silent return on shape mismatch)
+        size_t n = 1; for (auto e : shp) n *= e;
+        std::vector<size_t> shp2 = shp.size() >= 2 ? std::vector<size_t>{n} : std::vector<size_t>{n, 1};
+        dyn_t<ll> out2; out2.resize(shp2);
+        for (auto& x : out2.data_) x = -99;
+        na::eval(lz, nm::None, out2);
+        s += " | sup2 " + show(out2);
     }
     return s;
 }
@@ -136,6 +145,10 @@ static std::string handle(const Case& c) {
     // ---- dimension == 2
     COMP(30, view::matmul(a, view::transpose(b)), view::add(x, x))
     COMP(31, view::transpose(b), view::matmul(A, x))
+    // ---- empty results (an extent 0 produced by an empty slice), any dimension >= 1
+    COMP(40, view::slice(a, nmtools_tuple{1, 1}, nm::Ellipsis), view::transpose(x))
+    COMP(41, view::multiply(a, b), view::slice(x, nm::Ellipsis, nmtools_tuple{2, 1}))
+    COMP(42, view::slice(a, nmtools_tuple{1, 1}, nm::Ellipsis), view::add(x, x))
     return "unsupported";
 }
 
